@@ -103,6 +103,10 @@ class FString(object):
         return filter(self.is_correct_ast, actual_candidates)
 
     def str_for(self, s, quote):
+        if self.pep701:
+            # Backslashes are allowed in nested f-strings, so the literal parts can be escaped
+            return str(MiniString(s, quote)).replace('{', '{{').replace('}', '}}')
+
         return s.replace('{', '{{').replace('}', '}}')
 
 
